@@ -202,8 +202,8 @@ fn minimal_uint(v: u32) -> Vec<u8> {
     b[skip..].to_vec()
 }
 
-struct World<'a> {
-    spec: &'a Spec,
+struct World {
+    paths: Vec<String>,
     subject: Subject<Ep>,
     model: Model,
     viol: Vec<Violation>,
@@ -220,7 +220,7 @@ struct World<'a> {
     diverged: bool,
 }
 
-impl<'a> World<'a> {
+impl World {
     fn snapshot_real(&self, path: &str) -> Vec<(Ep, Vec<u8>, Option<u8>, Option<Option<u16>>)> {
         match self.subject.get_resource_observers(path) {
             None => vec![],
@@ -241,7 +241,7 @@ impl<'a> World<'a> {
     }
 
     fn all_paths(&self) -> Vec<String> {
-        let mut v: Vec<String> = self.spec.paths.clone();
+        let mut v: Vec<String> = self.paths.clone();
         v.push("nobody-observes-this".into());
         v
     }
@@ -349,7 +349,242 @@ impl<'a> World<'a> {
     }
 }
 
+/// Short histories over a tiny alphabet, applied directly to the Subject (no
+/// network): 2 endpoints x 2 tokens x 2 paths (+ an unobserved one) x 2
+/// message ids x {CON, NON} x limits {0, 1, 2}; 1-8 operations.  Dense
+/// coverage of the short histories in which registry bugs show.
+fn run_direct(ch: &mut Ch, verbose: bool) -> Outcome {
+    let mut out = Outcome::new();
+    let limit = ch.below(3, "od.limit") as u8;
+    let paths = vec!["p".to_string(), "q".to_string()];
+    let mut subject: Subject<Ep> = Subject::default();
+    subject.set_unacknowledged_limit(limit);
+    let mut w = World {
+        paths: paths.clone(),
+        subject,
+        model: Model { limit, res: BTreeMap::new() },
+        viol: Vec::new(),
+        stats: Stats::default(),
+        trace: Trace::new(verbose),
+        states: Vec::new(),
+        bigrams: Vec::new(),
+        last_op: 0,
+        last_seq: BTreeMap::new(),
+        dead: false,
+        diverged: false,
+    };
+    let n = 1 + ch.below(8, "od.nops") as usize;
+    let mut hist = Fnv::default();
+    hist.byte(limit);
+    for step in 0..n {
+        if w.dead {
+            break;
+        }
+        let kind = ch.below(4, "od.kind");
+        let ep: Ep = 1 + ch.below(2, "od.ep") as Ep;
+        let token = if ch.below(2, "od.token") == 0 { vec![0xA] } else { vec![0xB, 0xB] };
+        let pi = ch.below(3, "od.path") as usize;
+        let mid = 1 + ch.below(2, "od.mid") as u16;
+        let con = ch.below(2, "od.con") == 1;
+        hist.byte(kind as u8);
+        hist.byte(ep as u8);
+        hist.byte(token.len() as u8);
+        hist.byte(pi as u8);
+        hist.byte(mid as u8);
+        hist.byte(con as u8);
+        let before = w.before_all();
+        match kind {
+            0 | 1 => {
+                let path = paths[pi % 2].clone();
+                let mut req: CoapRequest<Ep> = CoapRequest::new();
+                req.source = Some(ep);
+                req.set_method(RequestType::Get);
+                req.set_path(&path);
+                req.message.set_token(token.clone());
+                let subj = &mut w.subject;
+                if kind == 0 {
+                    req.set_observe_flag(ObserveOption::Register);
+                    if let Err(m) = guard(|| subj.register(&req)) {
+                        w.viol.push(Violation::new("C14", "panic", format!("register panicked: {}", m)));
+                        break;
+                    }
+                    w.model.register(&path, ep, &token);
+                    w.compare(1, Some(&path), &before, &format!("register(ep{}, {:?}, token {})", ep, path, crate::json::hex(&token)));
+                } else {
+                    req.set_observe_flag(ObserveOption::Deregister);
+                    if let Err(m) = guard(|| subj.deregister(&req)) {
+                        w.viol.push(Violation::new("C14", "panic", format!("deregister panicked: {}", m)));
+                        break;
+                    }
+                    w.model.deregister(&path, ep, &token);
+                    w.compare(2, Some(&path), &before, &format!("deregister(ep{}, {:?}, token {})", ep, path, crate::json::hex(&token)));
+                }
+            }
+            2 => {
+                let path = if pi == 2 { "nobody-observes-this".to_string() } else { paths[pi].clone() };
+                let seq_before = w.subject.get_resource(&path).map(|r| (r.sequence, r.observers.len()));
+                let subj = &mut w.subject;
+                if let Err(m) = guard(|| subj.resource_changed(&path, mid, con)) {
+                    w.viol.push(Violation::new("C15", "panic", format!("resource_changed panicked: {}", m)).with_sig(&format!("panic@{}", panic_site(&m))));
+                    break;
+                }
+                w.model.changed(&path, mid, con);
+                if let Some((s0, nobs)) = seq_before {
+                    if nobs > 0 {
+                        let after = w.subject.get_resource(&path).map(|r| r.sequence);
+                        if after != Some(s0.wrapping_add(1)) {
+                            w.viol.push(Violation::new("C15", "seq-plus-one", format!("round on {:?}: sequence {} -> {:?}", path, s0, after)));
+                        }
+                    }
+                }
+                w.compare(3, Some(&path), &before, &format!("{} round on {:?} (mid {})", if con { "CON" } else { "NON" }, path, mid));
+            }
+            _ => {
+                let mut req: CoapRequest<Ep> = CoapRequest::new();
+                req.source = Some(ep);
+                req.message.header.set_type(MessageType::Acknowledgement);
+                req.message.header.message_id = mid;
+                let subj = &mut w.subject;
+                if let Err(m) = guard(|| subj.acknowledge(&req)) {
+                    w.viol.push(Violation::new("C15", "panic", format!("acknowledge panicked: {}", m)));
+                    break;
+                }
+                w.model.acknowledge(ep, mid);
+                w.compare(4, None, &before, &format!("acknowledge(ep{}, mid {})", ep, mid));
+            }
+        }
+        w.trace.line(|| format!("step {}: kind {} ep{} token {} path#{} mid {} con {}", step, kind, ep, crate::json::hex(&token), pi, mid, con));
+        if n <= 4 && step + 1 == n {
+            out.groups.push((format!("direct histories of depth {}", n), hist.0));
+        }
+    }
+    w.stats.hit("observe.direct-short-histories");
+    out.hash = hist.0;
+    out.violations = std::mem::take(&mut w.viol);
+    out.nontrivial = std::mem::take(&mut w.states);
+    out.nontrivial.sort_unstable();
+    out.nontrivial.dedup();
+    out.distinct2 = std::mem::take(&mut w.bigrams);
+    out.trace = std::mem::take(&mut w.trace.lines);
+    out.units = w.stats.get("observe.ops-compared").max(1);
+    out.stats = std::mem::take(&mut w.stats);
+    if verbose {
+        out.sample = Some(J::obj().set("mode", J::s("direct short history")).set("unacknowledged_limit", J::u(limit as u64)).set("operations", J::Arr(out.trace.iter().map(|l| J::s(l.clone())).collect())));
+    }
+    out
+}
+
+/// Thorough tier only: one very long history (70 000 rounds) so that the
+/// sequence number crosses the 255/256 and 65 535/65 536 byte-length
+/// boundaries of the Observe option encoding, with one observer that
+/// acknowledges every confirmable round and one that is silent.
+fn run_marathon(ch: &mut Ch, verbose: bool) -> Outcome {
+    let mut out = Outcome::new();
+    let limit = *ch.pick(&[255u8, 10, 254], "om.limit");
+    let con_every = 1 + ch.below(3, "om.con-every") as usize;
+    let path = "temp".to_string();
+    let mut subject: Subject<Ep> = Subject::default();
+    subject.set_unacknowledged_limit(limit);
+    let mut w = World {
+        paths: vec![path.clone()],
+        subject,
+        model: Model { limit, res: BTreeMap::new() },
+        viol: Vec::new(),
+        stats: Stats::default(),
+        trace: Trace::new(verbose),
+        states: Vec::new(),
+        bigrams: Vec::new(),
+        last_op: 0,
+        last_seq: BTreeMap::new(),
+        dead: false,
+        diverged: false,
+    };
+    for (ep, tok) in [(1 as Ep, vec![1u8, 2, 3]), (2 as Ep, vec![])] {
+        let mut req: CoapRequest<Ep> = CoapRequest::new();
+        req.source = Some(ep);
+        req.set_method(RequestType::Get);
+        req.set_path(&path);
+        req.message.set_token(tok.clone());
+        req.set_observe_flag(ObserveOption::Register);
+        w.subject.register(&req);
+        w.model.register(&path, ep, &tok);
+    }
+    let rounds = 70_000usize;
+    let mut last_sent: Option<u32> = None;
+    for i in 0..rounds {
+        let con = i % con_every == 0;
+        let mid = (i % 65536) as u16;
+        let (seq, observers): (u32, Vec<(Ep, Vec<u8>)>) = match w.subject.get_resource(&path) {
+            None => break,
+            Some(r) => (r.sequence, r.observers.iter().map(|o| (o.endpoint, o.token.clone())).collect()),
+        };
+        for (_ep, token) in &observers {
+            let pkt = create_notification(mid, token.clone(), seq, vec![0x76], con);
+            let ok = match pkt.to_bytes_unlimited().ok().and_then(|b| Packet::from_bytes(&b).ok()) {
+                None => false,
+                Some(d) => d.get_first_option(CoapOption::Observe).cloned() == Some(minimal_uint(seq)) && d.get_observe_value().and_then(|r| r.ok()) == Some(seq) && d.get_token() == &token[..] && d.header.message_id == mid,
+            };
+            w.stats.hit("c15.notification.checked");
+            if !ok {
+                w.viol.push(Violation::new("C15", "notification", format!("notification for sequence {} (round {}) does not encode / decode to it", seq, i)));
+                break;
+            }
+        }
+        if let Some(p) = last_sent {
+            if !observers.is_empty() && seq <= p {
+                w.viol.push(Violation::new("C15", "seq-plus-one", format!("sequence {} sent after {}", seq, p)));
+            }
+        }
+        last_sent = Some(seq);
+        let before = if i % 997 == 0 || i + 1 == rounds || (250..=260).contains(&i) { Some(w.before_all()) } else { None };
+        let subj = &mut w.subject;
+        if let Err(m) = guard(|| subj.resource_changed(&path, mid, con)) {
+            w.viol.push(Violation::new("C15", "panic", format!("resource_changed panicked in round {}: {} (limit {})", i, m, limit)).with_sig(&format!("panic@{}", panic_site(&m))));
+            break;
+        }
+        w.model.changed(&path, mid, con);
+        if let Some(b) = before {
+            w.compare(3, Some(&path), &b, &format!("{} round {} on {:?}", if con { "CON" } else { "NON" }, i, path));
+        }
+        if con {
+            // endpoint 1 acknowledges every confirmable notification
+            let mut ack: CoapRequest<Ep> = CoapRequest::new();
+            ack.source = Some(1);
+            ack.message.header.set_type(MessageType::Acknowledgement);
+            ack.message.header.message_id = mid;
+            w.subject.acknowledge(&ack);
+            w.model.acknowledge(1, mid);
+        }
+        if !w.viol.is_empty() {
+            break;
+        }
+    }
+    if let Some(r) = w.subject.get_resource(&path) {
+        if r.sequence >= 65_536 {
+            w.stats.hit("probe.c15.sequence-crossed-65536");
+        }
+    }
+    w.stats.hit("observe.marathon-runs");
+    out.hash = w.subject.get_resource(&path).map_or(0, |r| r.sequence as u64);
+    out.violations = std::mem::take(&mut w.viol);
+    out.nontrivial = std::mem::take(&mut w.states);
+    out.nontrivial.sort_unstable();
+    out.nontrivial.dedup();
+    out.units = rounds as u64;
+    out.stats = std::mem::take(&mut w.stats);
+    if verbose {
+        out.sample = Some(J::obj().set("mode", J::s("marathon: 70000 rounds")).set("unacknowledged_limit", J::u(limit as u64)));
+    }
+    out
+}
+
 pub fn run(ch: &mut Ch, verbose: bool) -> Outcome {
+    if thorough() && ch.chance(1, 2000, "o.marathon") {
+        return run_marathon(ch, verbose);
+    }
+    if ch.chance(1, 3, "o.direct-mode") {
+        return run_direct(ch, verbose);
+    }
     let spec = gen_spec(ch);
     let mut out = Outcome::new();
     out.faulty_cfg = spec.clients.iter().any(|c| c.net.faulty());
@@ -357,7 +592,7 @@ pub fn run(ch: &mut Ch, verbose: bool) -> Outcome {
     let mut subject: Subject<Ep> = Subject::default();
     subject.set_unacknowledged_limit(spec.limit);
     let mut w = World {
-        spec: &spec,
+        paths: spec.paths.clone(),
         subject,
         model: Model { limit: spec.limit, res: BTreeMap::new() },
         viol: Vec::new(),
